@@ -289,6 +289,24 @@ class StmtMixin:
             for e, i in zip(tgt.elts, v.items):
                 self.assign(st, e, i)
             return
+        from .builtins_ import VZipStar
+        if isinstance(v, VZipStar):
+            rows = v.rows
+            k = len(rows.elem.items)
+            # zip(*[]) yields nothing: unpacking into k names needs at least one row
+            self.check(st, rows.n >= 1, f"safety[{self.site(st, 'unpack')}]::unpack_arity", 'safety')
+            if k != len(tgt.elts):
+                self.check(st, z3.BoolVal(False), f"safety[{self.site(st, 'unpack')}]::unpack_arity", 'safety')
+                raise Unsupported("unpack arity mismatch")
+            j = z3.Int(fresh_name('zj'))
+            for c, e in enumerate(tgt.elts):
+                comp = rows.at(j).items[c]
+                col = self.fresh_list(comp.kind, 'zipcol', n=rows.n)
+                eqs = [z3.Select(ra, j) == x for ra, x in zip(col.arrs, comp.cols())]
+                if eqs:
+                    st.assume(z3.ForAll([j], z3.Implies(z3.And(0 <= j, j < rows.n), z3.And(*eqs)), patterns=[z3.Select(col.arrs[0], j)]))
+                self.assign(st, e, st.new_list(col))
+            return
         if isinstance(v, (VListRef, VList)):
             l = st.lst(v)
             self.check(st, l.n == len(tgt.elts), f"safety[{self.site(st, 'unpack')}]::unpack_arity", 'safety')
